@@ -15,7 +15,7 @@ RULE = {"C08": "generated robot definitions: 1-4 components (own and inherited a
                "attributes at class level / in an inherited robot class / in createObjects; each annotated attribute draws its "
                "relation to the robot from {absent, plain, prefixed only, both, wrong type, subclass instance, bool for int, "
                "falsy value, None, preset on the class, set in __init__, private, generic alias, other component}; robotInit() "
-               "runs for real.  Non-trivial = >=2 components and >=1 of {prefixed, falsy, cross-component, error}; distinct = "
+               "runs for real.  Also: components that are StateMachines, two components of one class, falsy component / mode objects, robot attributes that are callable objects (instance with __call__, functools.partial, class object), FMS attached at start-up.  Non-trivial = >=2 components and >=1 of {prefixed, falsy, cross-component, error}; distinct = "
                "hash of the definition."}
 REQUIRED = {"C08": {"falsy-component-or-mode": 100, "callable-robot-attribute": 50, "rel:plain": 200, "rel:prefixed": 100, "rel:both": 50, "rel:falsy": 100, "rel:subclass": 50, "rel:bool-for-int": 30,
                     "rel:generic-alias": 30, "rel:preset-class": 50, "rel:preset-init": 50, "rel:private": 50, "rel:component-earlier": 50,
